@@ -258,6 +258,17 @@ func (h hasher) GenerateHash(pw string) (string, error) {
 	return h.inner.GenerateHash(pw)
 }
 
+// bodyReader: the shipped HTTPBodyReader has no case for the otp module's "otplogin" page
+// (an application has to supply one); the harness reads it exactly like "login".
+type bodyReader struct{ inner authboss.BodyReader }
+
+func (b bodyReader) Read(page string, r *http.Request) (authboss.Validator, error) {
+	if page == "otplogin" {
+		page = "login"
+	}
+	return b.inner.Read(page, r)
+}
+
 type err500 struct{ log authboss.Logger }
 
 func (e err500) Wrap(h func(http.ResponseWriter, *http.Request) error) http.Handler {
@@ -272,6 +283,10 @@ func (e err500) Wrap(h func(http.ResponseWriter, *http.Request) error) http.Hand
 // ---- construction ------------------------------------------------------------
 
 func New(cfg Cfg) (*World, error) {
+	// whole-second epoch: the library formats some timestamps with second resolution
+	if ns := time.Now().Nanosecond(); ns != 0 {
+		time.Sleep(time.Duration(1000000000 - ns))
+	}
 	w := &World{Cfg: cfg, Log: &bytes.Buffer{}, Browsers: map[string]*Browser{}, OAuth: map[string]map[string]string{}, Epoch: time.Now()}
 	w.Store = NewStorer(cfg.OneTime)
 	ab := authboss.New()
@@ -286,6 +301,7 @@ func New(cfg Cfg) (*World, error) {
 	defaults.SetCore(&ab.Config, cfg.JSON, false)
 	logger := defaults.NewLogger(w.Log)
 	ab.Config.Core.Logger = logger
+	ab.Config.Core.BodyReader = bodyReader{ab.Config.Core.BodyReader}
 	if cfg.Err500 {
 		ab.Config.Core.ErrorHandler = err500{logger}
 	} else {
@@ -502,7 +518,8 @@ func (w *World) DoRaw(b *Browser, method, target, ct string, body *bytes.Reader,
 	res.Location = rec.Header().Get("Location")
 	res.Body = rec.Body.String()
 	if strings.HasPrefix(rec.Header().Get("Content-Type"), "application/json") {
-		json.Unmarshal(rec.Body.Bytes(), &res.JSON)
+		// a handler chain may write more than one document; the first is the response
+		json.NewDecoder(bytes.NewReader(rec.Body.Bytes())).Decode(&res.JSON)
 	}
 	res.Pages, res.Datas, res.Probe = w.Pages, w.Datas, w.Probe
 	res.Calls, res.Injected = w.Store.CallLog, w.Store.Injected
@@ -543,4 +560,9 @@ func SortedKeys(m map[string]string) []string {
 	}
 	sort.Strings(ks)
 	return ks
+}
+
+// DoRawStr serves a request with a literal target and string body.
+func (w *World) DoRawStr(bid, method, target, ct, body string, fault Fault) *Result {
+	return w.DoRaw(w.B(bid), method, target, ct, bytes.NewReader([]byte(body)), fault)
 }
